@@ -48,6 +48,34 @@ def cmd_batch(a):
     return rc
 
 
+def cmd_mirror(a):
+    """Serve scenarios from stdin under this interpreter's hash seed (C08 oracle 3)."""
+    zy, log = _zygote(a.prop)
+    import importlib
+
+    from vsim.engine import PROPS
+    prop = importlib.import_module(PROPS[a.prop])
+    for line in sys.stdin:
+        line = line.strip()
+        if not line:
+            continue
+        try:
+            sc = json.loads(line)
+            sc["index"] = f"m{sc.get('index', 0)}"
+            res = prop.execute_plain(zy, sc)
+            out = {"H": res["H"], "C": res["C"], "step_results": res["step_results"], "harness": res.get("harness")}
+        except BaseException as e:
+            out = {"harness": f"{type(e).__name__}: {e}", "H": None, "C": None, "step_results": []}
+        sys.stdout.write(json.dumps(out) + "\n")
+        sys.stdout.flush()
+    zy.close()
+    try:
+        os.unlink(log)
+    except OSError:
+        pass
+    return 0
+
+
 def cmd_exec(a):
     doc = json.loads(Path(a.path).read_text())
     prop_id = doc["property"]
@@ -73,6 +101,8 @@ def cmd_exec(a):
         import traceback
         traceback.print_exc()
         rc = 3
+    if hasattr(prop, "cleanup"):
+        prop.cleanup()
     zy.close()
     try:
         os.unlink(log)
@@ -159,6 +189,8 @@ def main():
     p = sub.add_parser("replay")
     p.add_argument("path")
     p.add_argument("-v", "--verbose", action="store_true")
+    p = sub.add_parser("mirror")
+    p.add_argument("prop")
     p = sub.add_parser("soak")
     p.add_argument("prop")
     p.add_argument("--runs", type=int, default=320)
@@ -170,7 +202,7 @@ def main():
     p.add_argument("--seeds", type=int, default=48)
     a = ap.parse_args()
     return {"check": cmd_check, "batch": cmd_batch, "exec": cmd_exec, "replay": cmd_replay,
-            "selftest": cmd_selftest, "soak": cmd_soak}[a.cmd](a)
+            "selftest": cmd_selftest, "soak": cmd_soak, "mirror": cmd_mirror}[a.cmd](a)
 
 
 if __name__ == "__main__":
